@@ -95,8 +95,8 @@ def declare(reg, eng):
                      "replace": [("C20", "fix and cleanup")],
                      "mkdir": [("C20", "fix")]},
                  modifies=None,
-                 loops={"job_path#1": {"body_post": [("C20", f"implies(not fix and not cleanup, {NOFS})")]},
-                        "job_path#2": {"body_post": [("C20", f"implies(not fix and not cleanup, {NOFS})")]}})
+                 # (one contract for every loop over the job directories, however many passes the function makes)
+                 loops={"job_path": {"body_post": [("C20", f"implies(not fix and not cleanup, {NOFS})")]}})
     reg.contracts["fix_deprecated"]["locals"] = {"job": "opt:Config", "params": "dict"}
     reg.classes["Identifier"]["fields"]["all"] = "bytes"
     reg.contract("ConfigInformation.identifier", params=["self"], returns="Identifier", modifies=[])
